@@ -250,7 +250,7 @@ func runCheck(e *Engine, prop string, cfg PropConfig, known []KnownFinding, seed
 					reproduced = oc.Panic != ""
 				}
 				if !reproduced {
-					inconclusive = append(inconclusive, fmt.Sprintf("%s: counterexample for %s (%s) did NOT reproduce natively (failed=%v panic=%q assumeViolated=%v) — engine/model defect, not reported as violation", h.Name, v.Label, v.Site, oc.Failed, oc.Panic, oc.AssumeViolated))
+					inconclusive = append(inconclusive, fmt.Sprintf("%s: counterexample for %s (%s) did NOT reproduce natively (failed=%v panic=%q assumeViolated=%v notes=%v) — engine/model defect, not reported as violation", h.Name, v.Label, v.Site, oc.Failed, oc.Panic, oc.AssumeViolated, v.Notes))
 				}
 			}
 			if !reproduced {
